@@ -130,7 +130,8 @@ pub fn make_binst(r: &mut StdRng, variant: usize) -> BInst {
                     t = json!(format!("{}-{}", v, variant));
                 }
                 // shapes that resemble the {key: value} wrapper every claim serialises to
-                let ck = if k == "ca" { "custom-a" } else { "custom-b" };
+                // (the member is named like the claim itself)
+                let ck: &str = keys[k].as_str();
                 if variant % 7 == 4 {
                     t = json!({ ck: format!("{}-{}", v, variant) });
                 }
